@@ -443,8 +443,8 @@ class Anticipated(Family):
     timeout_sig = 'non-termination'
     rule = ('a table of %d documented, anticipated student mistakes (malformed / unbalanced formulas, unknown names, division by zero, '
             'overflow, wrong arity, function domain, shape-illegal array arithmetic incl. non-integer and COMPLEX matrix powers, wrong '
-            'answer shape) submitted with debug off: each must surface as its specific documented error class with a message free of '
-            'raw line breaks -- not as the generic "Could not check input" error' % len(ANTICIPATED))
+            'answer shape) submitted with debug off, alone and after all the others: each must surface as its specific documented '
+            'error class with a message free of raw line breaks -- not as the generic "Could not check input" error' % len(ANTICIPATED))
 
     def setup(self, tier):
         self.gn = math_graders(False)
@@ -457,8 +457,32 @@ class Anticipated(Family):
         return {'grader': k, 'input': inp, 'problem': what, 'expected_error': list(classes)}
 
     def check(self, case):
+        # once on its own, once after every other anticipated mistake has been made (on the same graders): what one
+        # student's mistake leaves behind must not change how the next one is reported
+        res = self.check_one(case, ())
+        if res.violation is None:
+            res2 = self.check_one(case, [j for j in range(len(ANTICIPATED)) if j != case])
+            if res2.violation is not None:
+                res2.violation['sig'] = 'after-other-mistakes:' + res2.violation['sig']
+                res2.violation['msg'] = 'after all other anticipated mistakes were submitted first: ' + res2.violation['msg']
+                return res2
+        return res
+
+    def check_one(self, case, prelude):
         k, inp, what, classes = ANTICIPATED[case]
         g = self.gn[k]
+        for j in prelude:
+            kj, inpj = ANTICIPATED[j][0], ANTICIPATED[j][1]
+
+            def pre(ch, kj=kj, inpj=inpj):
+                try:
+                    self.gn[kj](None, inpj)
+                except Exception:
+                    pass
+            try:
+                chooser.run_with(pre)
+            except Exception:
+                pass
 
         def body(ch):
             try:
